@@ -111,6 +111,70 @@ def partial_decode(res, body, g, loops):
                 res.errors.append("a UTF-8 decoder (%s, line %s) is applied inside the copy loop with data-dependent part boundaries or with its own error handling: not decidable by this rule" % (path, t["ln"]))
 
 
+def bulk_accessors(facts, res, k_mes):
+    """The gate may fetch the buffer through a bulk accessor of the Bus instead of one Bus::read per byte.  Necessary condition for
+    'exactly the length bytes at buffer are emitted ... execution continues': such an accessor must ACCEPT every range that the
+    per-byte reads accept - (addr, len >= 1) with addr .. addr+len-1 inside one region of the map.  Decided for all 2^64 (addr, len):
+    the accessor is interpreted over a symbolic address and length; an Err path whose condition meets the set of valid ranges is a finding."""
+    from rules import c09
+    import cfg as cfgmod_
+    cg = cfgmod_.CallGraph(facts)
+    k_read = facts.body("bus::Bus::read")["key"]
+    k_write = facts.body("bus::Bus::write")["key"]
+    cands = []
+    for k in sorted(cg.reachable(k_mes)):
+        b = facts.bodies.get(k)
+        if b is None or k in (k_read, k_write) or not ("impl bus::Bus" in k or k.startswith("bus::Bus::")):
+            continue
+        if b.get("argc") != 3:
+            continue
+        tys = [facts.types[b["locals"][i]["ty"]] for i in (2, 3)]
+        if all(t_.get("k") == "int" and t_.get("bits") in (32, 64) for t_ in tys) and "Result" in (facts.types[b["locals"][0]["ty"]].get("path") or ""):
+            cands.append(k)
+    res.inventory["bulk_bus_accessors_used_by_the_gate"] = [k.split("::")[-1] for k in cands]
+    for k in cands:
+        bm, ip = c09.make(facts)
+        Mx = bv.M
+        b = facts.bodies[k]
+        wa = facts.types[b["locals"][2]["ty"]]["bits"]
+        wl = facts.types[b["locals"][3]["ty"]]["bits"]
+        addr = bv.seq_bv("ra", wa)
+        ln = bv.seq_bv("rl", wl)
+        mem = {}
+        busref = bm.fresh(mem)
+
+        def m_slice_index(ip_, st, fr, t, args):
+            return [(None, Opaque("subslice"))]
+        ip.pattern_models.insert(0, (lambda p, f: ("ops::Index<" in (p or "") or "ops::Index<" in (f or "")) and ("Range" in (f or "") + (p or "")) and "RangeFull" not in (f or "") + (p or ""), m_slice_index))
+        outs = ip.run_all(k, [busref, Int(addr), Int(ln)], mem)
+        a64 = bv.zext(addr, 64)
+        l64 = bv.zext(ln, 64)
+        last = bv.sub(bv.add(a64, l64), bv.const(1, 64))
+        valid = 0
+        for name, lo, hi in c09.REGIONS:
+            valid = Mx.OR(valid, Mx.AND(Mx.AND(bv.ule(bv.const(lo, 64), a64), bv.ule(a64, bv.const(hi, 64))), bv.ule(last, bv.const(hi, 64))))
+        valid = Mx.AND(valid, Mx.NOT(bv.is_zero(ln)))
+        nerr = 0
+        for o in outs:
+            st = o.state
+            if any(t_ in st.tags for t_ in ("opaque-switch", "opaque-assert", "unknown-callee", "unwrap-opaque")):
+                if Mx.AND(st.pc, valid) != 0 and not (o.kind == "return" and isinstance(o.value, Enum) and o.value.variant == models.OK):
+                    res.errors.append("bulk accessor %s: a path that may reject a valid range is not followed precisely (%r): not decidable" % (k.split("::")[-1], st.tags))
+                continue
+            if o.kind == "return" and isinstance(o.value, Enum) and o.value.variant == models.ERR:
+                nerr += 1
+                bad = Mx.AND(st.pc, valid)
+                res.ob(bad == 0)
+                if bad != 0:
+                    a_ = Mx.sat_one(bad) or {}
+                    va = sum((1 << i) for i, b_ in enumerate(addr) if b_ > 1 and a_.get(Mx.var[b_], 0))
+                    vl = sum((1 << i) for i, b_ in enumerate(ln) if b_ > 1 and a_.get(Mx.var[b_], 0))
+                    res.finding("write|bulk-read|rejects-valid-range|%s" % k.split("::")[-1], "the gate fetches the buffer through Bus::%s, which returns an error for a range that lies entirely inside "
+                                "mapped memory (every single Bus::read of it succeeds): the text is not emitted and execution stops" % k.split("::")[-1],
+                                {"buffer": "0x%x" % va, "length": vl, "last byte": "0x%x" % (va + vl - 1)})
+        res.evaluations += len(outs)
+
+
 def run(ctx, res):
     facts = ctx["facts"]
     res.explanation = __doc__.split("\n\n", 1)[1].replace("\n", " ")
@@ -132,6 +196,16 @@ def run(ctx, res):
         res.errors.append("anchors: %r %r %r" % (k_trapa, k_mes, k_stdout))
         return
     body = facts.bodies[k_mes[0]]
+    try:
+        bulk_accessors(facts, res, k_mes[0])
+    except Exception as e_:      # noqa
+        res.errors.append("bulk accessor rule: %s" % str(e_)[:300])
+    bv.reset()
+    strmodel.reset()
+    I = isamod.Isa(facts)
+    ip = I.make_interp(with_mes_prim=False)
+    c13.time_models(ip)
+    strmodel.install(ip)
     g = cfgmod.Cfg(body)
     loops = g.loops()
     partial_decode(res, body, g, loops)
